@@ -41,6 +41,7 @@ impl LoopCase {
 
 #[derive(Clone, Debug, Default)]
 pub struct LoopFacts {
+  pub fresh_differentials: u32,
   pub multi_event_wakeups: u32,
   pub mid_drain: u32,
   pub timeouts: u32,
@@ -406,16 +407,17 @@ pub fn analyse(case: &LoopCase, result: &Result<(), String>, d: &Driver, sel: u3
 
 pub fn gen_loop_case(src: &mut Src, which: u32, quick: bool) -> Option<LoopCase> {
   let (fam, tablet_percent, timeout_percent) = match which {
-    10 => (match src.weighted(&[35, 25, 20, 20]) { 0 => Family::General, 1 => Family::RepeatDense, 2 => Family::Tagged, _ => Family::AbsorbingDense }, if src.chance(35) { 12 } else { 0 }, 12),
+    10 => (match src.weighted(&[28, 20, 16, 16, 20]) { 0 => Family::General, 1 => Family::RepeatDense, 2 => Family::Tagged, 3 => Family::AbsorbingDense, _ => Family::Siblings }, if src.chance(35) { 12 } else { 0 }, 12),
     11 => (Family::RepeatDense, if src.chance(45) { 10 } else { 0 }, 52),
-    12 => (match src.weighted(&[40, 30, 30]) { 0 => Family::RepeatDense, 1 => Family::General, _ => Family::AbsorbingDense }, 30, 20),
-    _ => (match src.weighted(&[40, 40, 20]) { 0 => Family::General, 1 => Family::RepeatDense, _ => Family::AbsorbingDense }, 15, 20),
+    12 => (match src.weighted(&[34, 26, 25, 15]) { 0 => Family::RepeatDense, 1 => Family::General, 2 => Family::AbsorbingDense, _ => Family::Siblings }, 30, 20),
+    _ => (match src.weighted(&[34, 34, 17, 15]) { 0 => Family::General, 1 => Family::RepeatDense, 2 => Family::AbsorbingDense, _ => Family::Siblings }, 15, 20),
   };
   let opts = LayoutOpts { allow_absorbing: true, max_alphabet: 8 };
   let fam = if which != 11 && src.chance(4) { Family::Wide } else { fam };
   let mut g = loaded(gen_family(src, fam, &opts))?;
   let real_sleep = which == 11 && src.chance(if quick { 4 } else { 6 });
-  if which == 11 {
+  let repeat_heavy = which == 11 || (which == 12 && src.chance(45));
+  if repeat_heavy {
     // chord keys overlapping held keys: redraw some chords from the alphabet (pass-through
     // modifiers, outputs of other mappings, foreign keys)
     let mut pool: Vec<KeyCode> = g.alphabet.clone();
@@ -473,7 +475,7 @@ pub fn gen_loop_case(src: &mut Src, which: u32, quick: bool) -> Option<LoopCase>
       kb.push(Event::Released(k));
     }
   }
-  if which == 11 && src.chance(75) {
+  if repeat_heavy && src.chance(75) {
     // make a Special mapping fire by construction: press its trigger keys somewhere in the history
     let specials: Vec<Mapping> = g.layout.mappings.iter().filter(|m| matches!(m.repeat, Repeat::Special { .. })).cloned().collect();
     if !specials.is_empty() {
@@ -512,7 +514,7 @@ pub fn gen_loop_case(src: &mut Src, which: u32, quick: bool) -> Option<LoopCase>
       }
     }
   }
-  if which == 11 && src.chance(35) {
+  if repeat_heavy && src.chance(35) {
     // episodes: a Special mapping fires, ticks, something happens in between (tablet events -
     // also redundant ones -, another key, a duplicate press), the same or another Special
     // mapping fires again, more ticks
@@ -590,6 +592,7 @@ pub fn gen_loop_case(src: &mut Src, which: u32, quick: bool) -> Option<LoopCase>
   }
   let so = SchedOpts { tablet_percent, timeout_percent, allow_interrupt: true, max_batch: if which == 11 && src.chance(70) { 2 } else { 64 } };
   let mut script = gen_script(src, kb, &so, real_sleep);
+  resync_after_interruptions(src, &mut script);
   if let Some(m) = mega {
     // one notification carries the first m (or more) events
     let total = script.kb_events.len();
@@ -604,6 +607,50 @@ pub fn gen_loop_case(src: &mut Src, which: u32, quick: bool) -> Option<LoopCase>
     script.actions = actions;
   }
   Some(LoopCase { layout: g.layout, script, family: g.family })
+}
+
+// After an interruption (signal, resume) a keyboard may announce keys that are still down once
+// more: now and then the arrival that follows an interruption starts with presses of one or
+// two keys that are physically held at that point. Duplicate presses are part of "every key
+// history"; here they come exactly where a loop might think it can take a short cut.
+fn resync_after_interruptions(src: &mut Src, script: &mut Script) {
+  let mut consumed = 0usize; // keyboard events delivered by the actions so far
+  let mut after_interrupt = false;
+  let mut i = 0;
+  while i < script.actions.len() {
+    match &mut script.actions[i] {
+      Action::Interrupted => after_interrupt = true,
+      Action::TimedOut => {}
+      Action::Arrive { kb, mid, .. } => {
+        if after_interrupt && *kb > 0 && src.chance(35) {
+          let mut held: Vec<KeyCode> = Vec::new();
+          for e in &script.kb_events[..consumed.min(script.kb_events.len())] {
+            match e {
+              Event::Pressed(k) => {
+                if !held.contains(k) {
+                  held.push(*k);
+                }
+              }
+              Event::Released(k) => held.retain(|x| x != k),
+            }
+          }
+          if !held.is_empty() {
+            let n = src.range(1, 2).min(held.len());
+            let again = src.distinct(&held, n);
+            for (j, k) in again.into_iter().enumerate() {
+              script.kb_events.insert(consumed + j, Event::Pressed(k));
+              *kb += 1;
+            }
+          }
+        }
+        if *kb > 0 {
+          after_interrupt = false;
+        }
+        consumed += *kb + mid.iter().map(|(_, m)| *m).sum::<usize>();
+      }
+    }
+    i += 1;
+  }
 }
 
 // Slow-time variants of a generated case: a *storm* (two interruptions in a row: the real loop
@@ -651,6 +698,9 @@ fn record(which: u32, c: &LoopCase, f: &LoopFacts, stats: &mut Stats) {
   if f.interrupted > 0 {
     stats.label("interrupted");
   }
+  if f.fresh_differentials > 0 {
+    stats.label("fresh-start-differential");
+  }
   if f.spurious_timeouts > 0 {
     stats.label("spurious-time-out");
   }
@@ -684,10 +734,101 @@ fn record(which: u32, c: &LoopCase, f: &LoopFacts, stats: &mut Stats) {
   }
 }
 
+// C12, "after it turns off mapping resumes as from a fresh start", taken literally: when the
+// last tablet event of a run is an Off that arrives alone (nothing unread, nothing else
+// reported in that wake-up), the rest of the script is also given to a *fresh* run of the real
+// loop. What the two runs write afterwards must agree: the same key events outside timer
+// chords, and the same chord at every time-out at which both wrote one (whether a chord is
+// written at a given time-out may depend on the clock, its content may not).
+fn sends_after(calls: &[Call], snaps: &[PollSnap], from_call: usize, action_offset: usize) -> (Vec<Event>, std::collections::BTreeMap<usize, Vec<Event>>) {
+  let mut plain: Vec<Event> = Vec::new();
+  let mut chords: std::collections::BTreeMap<usize, Vec<Event>> = std::collections::BTreeMap::new();
+  let mut after_timeout: Option<usize> = None;
+  for (i, c) in calls.iter().enumerate() {
+    match &c.kind {
+      CallKind::Poll { ret, .. } => {
+        after_timeout = match ret {
+          Some(VPoll::TimedOut) => snaps.iter().find(|s| s.call_idx == i).and_then(|s| s.action_idx).map(|a| a + action_offset),
+          _ => None,
+        };
+      }
+      CallKind::NextKb { .. } | CallKind::NextTab { .. } => after_timeout = None,
+      CallKind::Send { evs } if i >= from_call && !c.failed => match after_timeout {
+        Some(a) => chords.entry(a).or_default().extend(evs.iter().cloned()),
+        None => plain.extend(evs.iter().cloned()),
+      },
+      _ => {}
+    }
+  }
+  (plain, chords)
+}
+
+pub fn fresh_start_differential(c: &LoopCase, d: &Driver) -> Result<bool, Violation> {
+  if c.script.real_sleep || c.script.stall.is_some() {
+    return Ok(false);
+  }
+  let ti = match d.calls.iter().rposition(|c| matches!(&c.kind, CallKind::NextTab { ret: Some(VNext::One(_)) })) {
+    Some(i) => i,
+    None => return Ok(false),
+  };
+  if !matches!(&d.calls[ti].kind, CallKind::NextTab { ret: Some(VNext::One(VTablet::Off)) }) {
+    return Ok(false);
+  }
+  let snap = match d.poll_snaps.iter().rev().find(|s| s.call_idx < ti) {
+    Some(s) => s.clone(),
+    None => return Ok(false),
+  };
+  let alone = matches!(&d.calls[snap.call_idx].kind, CallKind::Poll { ret: Some(VPoll::DeviceEvent(devs)), .. } if devs.len() == 1 && matches!(devs[0], VDevice::Tablet));
+  if !alone || snap.tab_queue_len != 1 || snap.kb_queue_len != 0 || snap.pending_mid || snap.action_idx.is_none() {
+    return Ok(false);
+  }
+  if c.script.actions[snap.next_action..].iter().any(|a| matches!(a, Action::Interrupted)) {
+    return Ok(false);
+  }
+  // the release batch of the Off event itself: the sends directly after it
+  let mut from_call = ti + 1;
+  while from_call < d.calls.len() && matches!(d.calls[from_call].kind, CallKind::Send { .. }) {
+    from_call += 1;
+  }
+  let suffix = Script { kb_events: c.script.kb_events[snap.kb_next..].to_vec(), actions: c.script.actions[snap.next_action..].to_vec(), end_in_same_drain: c.script.end_in_same_drain, real_sleep: false, stall: None };
+  let (_r2, d2) = run_loop(&c.layout, &suffix, None);
+  let (plain1, chords1) = sends_after(&d.calls, &d.poll_snaps, from_call, 0);
+  let (plain2, chords2) = sends_after(&d2.calls, &d2.poll_snaps, 0, snap.next_action);
+  if plain1 != plain2 {
+    return Err(Violation::new(
+      "not-a-fresh-start",
+      format!("after the last tablet-mode event (off, call {}) the loop wrote key events [{}]; a fresh run of the loop on the rest of the script writes [{}]", ti + 1, evs_text(&plain1), evs_text(&plain2)),
+    ));
+  }
+  for (a, ch1) in &chords1 {
+    if let Some(ch2) = chords2.get(a) {
+      if ch1 != ch2 {
+        return Err(Violation::new(
+          "not-a-fresh-start",
+          format!("after the last tablet-mode event (off, call {}) the time-out of action {} wrote the repeat chord [{}]; a fresh run of the loop on the rest of the script writes [{}] there", ti + 1, a, evs_text(ch1), evs_text(ch2)),
+        ));
+      }
+    }
+  }
+  Ok(true)
+}
+
 pub fn run_loop_case(which: u32, c: &LoopCase, facts: &mut LoopFacts) -> Result<(), Violation> {
   let (res, d) = run_loop(&c.layout, &c.script, None);
   let sel = 1u32 << which;
   match analyse(c, &res, &d, sel, facts) {
+    Ok(()) if which == 12 => match fresh_start_differential(c, &d) {
+      Ok(applied) => {
+        if applied {
+          facts.fresh_differentials += 1;
+        }
+        Ok(())
+      }
+      Err(mut v) => {
+        v.detail = format!("{} | trace: {}", v.detail, trace_text(&d.calls).join("; "));
+        Err(v)
+      }
+    },
     Ok(()) => Ok(()),
     Err((_p, mut v)) => {
       v.detail = format!("{} | trace: {}", v.detail, trace_text(&d.calls).join("; "));
